@@ -4,4 +4,5 @@ CONSTANT Depth
 ValsM101 == {-1, 0, 1}
 Vals01 == {0, 1}
 StaleOps == {"setitem", "toenum", "refresh", "copy"}
+LitOps == {"setitem", "augadd", "imul", "bin", "mulraise", "value"}
 =============================================================================
